@@ -191,6 +191,59 @@ def is_live(ev, site, exclude_roots=()):
     return False
 
 
+def draws_on_chain(ev, t):
+    """the draw terms whose post-states lie on the provenance chain of generator state `t`
+    (through post-states, loop head/exit symbols -- init AND next --, and both arms of an ite)"""
+    out, seen, stack = set(), set(), [t]
+    while stack:
+        x = stack.pop()
+        if not isinstance(x, T.Tm) or x in seen:
+            continue
+        seen.add(x)
+        if x[0] == 'ite':
+            stack.extend([x[2], x[3]])
+        elif x[0] == 'app' and x[1].startswith('post') and x[2]:
+            inner = x[2][0]
+            idx = int(x[1][4:]) if x[1][4:].isdigit() else 0
+            if inner[0] == 'app':
+                out.add(inner)
+                if len(inner[2]) > idx:
+                    stack.append(inner[2][idx])
+        elif x[0] == 'sym':
+            m = re.match(r'l([hx])(\d+):(.*)', x[1])
+            if m:
+                ls = loop_by_uid(ev, int(m.group(2)))
+                if ls is not None:
+                    for k, h in list(ls.lh.items()) + list(ls.lx.items()):
+                        if h is x:
+                            for src in (ls.init.get(k), ls.next.get(k)):
+                                if src is not None and not isinstance(src, T.Tm):
+                                    try:
+                                        src = ev.vf.to_term(src)
+                                    except Exception:
+                                        src = None
+                                if src is not None:
+                                    stack.append(src)
+    return out
+
+
+def advances(ev, site):
+    """the draw consumed the generator it was given IN PLACE (not a copy), and the state that place holds when the
+    body returns descends from this draw's post-state (nobody rewound or replaced the generator afterwards)"""
+    gp = getattr(site.e, 'gen_place', None)
+    if gp is None:
+        return False, 'drawn from a temporary copy of the generator (its state is not advanced)'
+    k = gp
+    # the generator may be a sub-place of a written parent; look the exact place up first
+    try:
+        fin = ev.vf.to_term(ev.vf.read(k))
+    except Exception as ex:
+        return False, 'final generator state unreadable: %s' % ex
+    if site.res in draws_on_chain(ev, fin):
+        return True, ''
+    return False, 'final state of the generator %s does not descend from this draw' % show(fin)[:120]
+
+
 def checked_u64_arith(body, facts):
     """THIR Binary Add/Sub/Mul nodes of type u64 in a body and its closures (overflow-checked in the dev profile)"""
     out = []
